@@ -52,6 +52,9 @@ if not check_only:
     ok, out = build_and_test(); res["tests_pass_with_patch"] = ok; res["tests_tail"] = out[-300:]
     rc, out = demo(); res["demo_fails_with_patch"] = rc != 0; res["demo_with_patch_tail"] = out[-300:]
     sh("git checkout -q -- .", cwd=wt)
+    if os.path.exists(os.path.join(wt, "_build", "python3_11")) or os.path.exists(os.path.join(sdir, "demo.py")):
+        # compiled Python module: the demo runs against the built tree, so rebuild the clean tree first
+        sh("cmake --build _build -j8 2>&1 | tail -2", cwd=wt)
     rc, out = demo(); res["demo_passes_on_clean"] = rc == 0; res["demo_clean_tail"] = out[-200:]
 # run our check in isolation
 copy = "/tmp/vseed_%s" % prop.lower()
